@@ -21,6 +21,11 @@ class InjectedTargetError(RuntimeError):
     pass
 
 
+class InjectedStopIteration(StopIteration):
+    """a target failing with a StopIteration (e.g. next() on an exhausted iterator): iterator protocols such as
+    map() / generators swallow it silently if the target is called from inside one"""
+
+
 class InjectedTargetError2(Exception):
     """an exception type whose constructor needs two positional arguments
     (like subprocess.CalledProcessError): it cannot be re-created from a message"""
@@ -58,7 +63,9 @@ class Recorder:
         self.np_slack = np_slack
         self.max_loop = max_loop
         self.last_eval_u = None
+        self._seen_x = {}
         self.filtered = {}        # step site -> rows (bytes) returned by the candidate filter in this step
+        self.since_filter = {}    # step site -> points evaluated since the filter was last called in this step
         self.bads = None
         self.fit_idx = 0
         self.in_es = 0
@@ -101,6 +108,8 @@ class Recorder:
         if fk == "exception":
             rec["fault"] = fk
             raise InjectedTargetError("injected target failure at call %d" % n)
+        if fk == "exception3":
+            raise InjectedStopIteration("injected target failure at call %d" % n)
         if fk == "exception2":
             rec["fault"] = fk
             raise InjectedTargetError2(n, "injected target failure")
@@ -109,6 +118,15 @@ class Recorder:
         if mode != "det":
             sd = float(self.sdfun(xc))
             y = y + float(self.noise.get("actual", 1.0)) * sd * float(np.random.normal())
+            # optional: a repeated observation of a point comes out markedly lower, so that re-observed points tend
+            # to become the incumbent (exercises merged records as incumbents / recorded iterates)
+            rd = float(self.noise.get("repeat_drop", 0.0))
+            if rd:
+                key = xc.tobytes()
+                cnt = self._seen_x.get(key, 0)
+                self._seen_x[key] = cnt + 1
+                if cnt and self.site() in ("search", "poll"):
+                    y = y - rd * sd
         rec["y"] = y
         rec["sd"] = sd
         if fk is not None:
@@ -168,7 +186,12 @@ class Recorder:
                     filt = rec.filtered.get(ce["site"])
                     infilt = True if filt is None else (
                         np.ascontiguousarray(np.asarray(ce["u"], dtype=float).ravel()).tobytes() in filt)
-                    rec.emit("Eval", site=ce["site"], u=ce["u"], rec=ce["rec"], infilt=bool(infilt),
+                    sf = rec.since_filter.get(ce["site"])
+                    ub_ = np.ascontiguousarray(np.asarray(ce["u"], dtype=float).ravel()).tobytes()
+                    repstep = bool(sf is not None and ub_ in sf)
+                    if sf is not None:
+                        sf.add(ub_)
+                    rec.emit("Eval", site=ce["site"], u=ce["u"], rec=ce["rec"], infilt=bool(infilt), repstep=repstep,
                              tcalls=ce["tcalls"], outcome=outcome,
                              ret=None if ret is None else (ret[0], ret[1], ret[2]),
                              fc_after=int(fl.func_count), Xn_after=int(fl.Xn),
@@ -202,6 +225,7 @@ class Recorder:
                     rec.bads = b
                     rec.stack.append(site)
                     rec.filtered.pop(site, None)
+                    rec.since_filter.pop(site, None)
                     rec.emit(name + "Begin", **ctl(b))
                     if site == "poll":
                         rec.polled_since_loop_end = True
@@ -221,6 +245,7 @@ class Recorder:
                 rec.bads = b
                 rec.stack.append("init_mesh")
                 rec.filtered.pop("init_mesh", None)
+                rec.since_filter.pop("init_mesh", None)
                 try:
                     r = orig(b, *a, **kw)
                     fl = b.function_logger
@@ -300,6 +325,7 @@ class Recorder:
                     try:
                         rows = np.ascontiguousarray(np.atleast_2d(np.asarray(out, dtype=float)))
                         rec.filtered.setdefault(step_site, set()).update(r_.tobytes() for r_ in rows)
+                        rec.since_filter[step_site] = set()
                     except Exception:
                         pass
                 try:
